@@ -963,6 +963,8 @@ def tsub_data(case, res, out):
         if n not in vec_of:
             return None
         if vec_of[n]:
+            if not value_is_vector(t):
+                return None          # a scalar where a vector was declared: no component-wise reading
             comps = ["(TZ 0%Z)"] + [texpr_of_value(t, i + 1) for i in range(dim)]
         else:
             if value_is_vector(t):
@@ -1527,8 +1529,8 @@ def main(run, replay=None):
                 stats["lowered_proved"] += 1
             else:
                 stats["lowered_unproved"] += 1
-                if out["oracle"].get("ok"):
-                    unproved_kinds[kind] = unproved_kinds.get(kind, 0) + 1
+                k2 = kind if out["oracle"].get("ok") else kind + " (numeric oracle %s)" % (out["oracle"].get("skipped") or "not ok")
+                unproved_kinds[k2] = unproved_kinds.get(k2, 0) + 1
             orc = out["oracle"]
             bad = None
             if diag is not None:
